@@ -39,7 +39,12 @@ def _expected(fault_op, name):
 class BackendHarness:
     horizon = 3000
 
-    def __init__(self, runtime, ct, method="GET", warm=False, short_writes=False, uds=False, timeouts=True):
+    def __init__(self, runtime, ct, method="GET", warm=False, short_writes=False, uds=False, timeouts="all", consume="request",
+                 body="bytes", early=False, payload=7):
+        self.consume = consume        # "request" | "close-mid-body" (close-delimited response, pool closed after the first chunk, iteration continues)
+        self.body = body              # "bytes" | "iter" (chunked upload on HTTP/1.1)
+        self.early = early            # the server answers as soon as it has the request head
+        self.payload = payload        # upload size in bytes
         self.runtime = runtime
         self.variant = "sync" if runtime == "sync" else "async"
         self.ct = ct
@@ -48,6 +53,15 @@ class BackendHarness:
         self.short_writes = short_writes
         self.uds = uds
         self.timeouts = timeouts
+
+    def _cfg(self):
+        if self.timeouts in ("all", True):
+            return dict(TIMEOUTS)
+        if self.timeouts == "connect-only":
+            return {"connect": TIMEOUTS["connect"]}
+        if self.timeouts == "read-only":
+            return {"read": TIMEOUTS["read"]}
+        return None
 
     def _backend(self):
         if self.runtime == "sync":
@@ -62,7 +76,8 @@ class BackendHarness:
     def run(self, chooser) -> Execution:
         fakeos.install()
         ct = self.ct
-        topo = scen.Topology(scen.CONN_TYPES[ct])
+        topo = scen.Topology(scen.CONN_TYPES[ct], respond_at="head" if self.early else "complete",
+                             **({"framing": "close"} if self.consume == "close-mid-body" else {}))
         log: dict = {}
         w = SeqWorld(chooser, topo.router, variant=self.variant, merge_roots=[log], faults=0, fault_kinds=fakeos.ALPHABET[self.runtime])
         w.env.short_writes = False
@@ -71,8 +86,25 @@ class BackendHarness:
         kw = {"uds": "/run/sock"} if self.uds else {}
         pool = scen.make_pool(ct, self._backend(), self.variant, max_connections=2, **kw)
         w.roots.append(pool)
-        ext = {"timeout": dict(TIMEOUTS)} if self.timeouts else {}
-        body = b"payload" if self.method == "POST" else None
+        cfg = self._cfg()
+        ext = {"timeout": dict(cfg)} if cfg is not None else {}
+        payload = (b"payload-" * (self.payload // 8 + 1))[:self.payload]
+        log["payload"] = payload if self.method == "POST" else None
+        is_sync = self.variant == "sync"
+
+        def mkbody():
+            if self.method != "POST":
+                return None
+            if self.body == "bytes":
+                return payload
+            parts = [payload[:3], payload[3:5], payload[5:]]
+            if is_sync:
+                return iter(parts)
+
+            async def agen():
+                for c_ in parts:
+                    yield c_
+            return agen()
         url_v, url_w, url_a = (scen.url_for(ct, token=t) for t in ("victim", "warm", "after"))
 
         def arm():
@@ -90,15 +122,23 @@ class BackendHarness:
                     log["warm"] = (r.status, r.content)
                 arm()
                 try:
-                    r = pool.request(self.method, url_v, content=body, extensions=dict(ext))
-                    log["victim"] = ("ok", r.status, r.content)
+                    if self.consume == "request":
+                        r = pool.request(self.method, url_v, content=mkbody(), extensions=dict(ext))
+                        log["victim"] = ("ok", r.status, r.content)
+                    else:
+                        with pool.stream(self.method, url_v, content=mkbody(), extensions=dict(ext)) as r:
+                            it = r.iter_stream()
+                            first = next(it, b"")
+                            pool.close()
+                            rest = b"".join(it)
+                            log["victim"] = ("ok", r.status, first + rest)
                 except Exception as e:
                     log["victim"] = ("exc", e)
                 finally:
                     disarm()
                 log["after"] = scen.pool_summary(pool)
                 try:
-                    r = pool.request("GET", url_a, extensions={"timeout": dict(TIMEOUTS, pool=0)})
+                    r = pool.request("GET", url_a, extensions={"timeout": dict(cfg or {}, pool=0)})
                     log["followup"] = ("ok", r.status, r.content)
                 except Exception as e:
                     log["followup"] = ("exc", e)
@@ -111,15 +151,28 @@ class BackendHarness:
                     log["warm"] = (r.status, r.content)
                 arm()
                 try:
-                    r = await pool.request(self.method, url_v, content=body, extensions=dict(ext))
-                    log["victim"] = ("ok", r.status, r.content)
+                    if self.consume == "request":
+                        r = await pool.request(self.method, url_v, content=mkbody(), extensions=dict(ext))
+                        log["victim"] = ("ok", r.status, r.content)
+                    else:
+                        async with pool.stream(self.method, url_v, content=mkbody(), extensions=dict(ext)) as r:
+                            it = r.aiter_stream().__aiter__()
+                            try:
+                                first = await it.__anext__()
+                            except StopAsyncIteration:
+                                first = b""
+                            await pool.aclose()
+                            rest = b""
+                            async for c_ in it:
+                                rest += c_
+                            log["victim"] = ("ok", r.status, first + rest)
                 except Exception as e:
                     log["victim"] = ("exc", e)
                 finally:
                     disarm()
                 log["after"] = scen.pool_summary(pool)
                 try:
-                    r = await pool.request("GET", url_a, extensions={"timeout": dict(TIMEOUTS, pool=0)})
+                    r = await pool.request("GET", url_a, extensions={"timeout": dict(cfg or {}, pool=0)})
                     log["followup"] = ("ok", r.status, r.content)
                 except Exception as e:
                     log["followup"] = ("exc", e)
@@ -167,26 +220,49 @@ class BackendHarness:
                 hard_write = fop == "write" and name not in fakeos.SOFT
                 if not isinstance(e, want) and not (hard_write and isinstance(e, (httpcore.RemoteProtocolError, httpcore.ReadError))):
                     viol("C15", "wrong-class", f"{name} raised by the OS-level {fop} surfaced as {exc_class(e)} (expected {want.__name__}): {e}", got=exc_class(e))
+            elif self.consume == "close-mid-body":
+                pass        # the caller closed the pool under its own response: any documented error is an acceptable answer
             else:
                 viol("C15", "spurious-error", f"nothing failed but the call raised {exc_class(e)}: {e}")
-        elif vic[2] != b"<victim>":
+        elif vic[2] != b"<victim>" and self.consume == "request":
             viol("C01", "wrong-body", f"victim got {vic[2]!r}")
+        # ---- the upload as the peer decoded it (short writes of the sync send loop must neither lose, repeat nor reorder bytes)
+        if log.get("payload") is not None and vic[0] == "ok" and not inj:
+            got = None
+            for c in topo.all_h1_conns():
+                for q in c.parser.requests:
+                    if q.target.endswith(b"/t/victim"):
+                        got = bytes(q.body)
+            for c in topo.all_h2_conns():
+                for sid in c.order:
+                    st_ = c.streams[sid]
+                    if any(k == b":path" and v.endswith(b"/t/victim") for k, v in st_.headers):
+                        got = bytes(st_.body)
+            if got != log["payload"]:
+                prop = "C13" if scen.CONN_TYPES[self.ct]["proto"] == "h2" else "C03"
+                viol(prop, "upload-body", f"the server decoded an upload of {None if got is None else len(got)} bytes {got[:40] if got else got!r}, the caller sent {len(log['payload'])} bytes {log['payload'][:40]!r}")
         fu = log.get("followup")
         if fu is not None and not (fu[0] == "ok" and fu[1] == 200 and fu[2] == b"<after>"):
             viol("C01", "followup", f"the request that followed gave {fu[0]}:{exc_class(fu[1]) if fu[0] == 'exc' else fu[1:]}")
         # ---- C16: the limit in effect at every OS-level operation
-        if self.timeouts:
+        cfg = self._cfg()
+        if cfg is not None:
             proxied = bool(scen.CONN_TYPES[self.ct]["proxy"])
+            first_victim_op = None
             for op in ledger:
                 if op.kind not in ("connect_tcp", "connect_unix", "start_tls", "read", "write"):
                     continue
                 t = op.args.get("timeout")
-                want = TIMEOUTS["connect"] if op.kind in ("connect_tcp", "connect_unix", "start_tls") else TIMEOUTS[op.kind]
-                if t == fakeos.NO_SCOPE or t is None:
-                    viol("C16", "no-limit-at-os-operation", f"{op.kind} #{op.i} was issued with no time limit in effect ({t}) although the request configured {TIMEOUTS}", op=op.kind)
+                establishing = op.kind in ("connect_tcp", "connect_unix", "start_tls")
+                want = cfg.get("connect") if establishing else cfg.get(op.kind)
+                if t == fakeos.NO_SCOPE:
+                    viol("C16", "no-limit-at-os-operation", f"{op.kind} #{op.i} was issued with no time limit applied at all (neither a value nor an explicit 'unlimited'); request configured {cfg}", op=op.kind)
                     break
-                if t != want and not (proxied and t in (TIMEOUTS["connect"], TIMEOUTS["read"], TIMEOUTS["write"])):
-                    viol("C16", "wrong-limit-at-os-operation", f"{op.kind} #{op.i} ran under a limit of {t}s, the request's {('connect' if want == 1.0 else op.kind)} timeout is {want}s", op=op.kind)
+                # proxy negotiation reads / writes may carry any of the configured values (never one that was not configured);
+                # opening the socket and every TLS handshake use the connect timeout, always
+                lenient = proxied and not establishing and t in (cfg.get("connect"), cfg.get("read"), cfg.get("write"))
+                if t != want and not lenient:
+                    viol("C16", "wrong-limit-at-os-operation", f"{op.kind} #{op.i} ran under a limit of {t}, the request's {'connect' if establishing else op.kind} timeout is {want} (configuration {cfg}; absent = unlimited)", op=op.kind)
                     break
         # ---- C05 / C06
         after = log.get("after")
@@ -205,27 +281,42 @@ class BackendHarness:
         return ex
 
 
-def specs(tier):
+def specs(tier, purpose="all"):
+    """(deviation bound, spec) pairs.  purpose: "all" (C15 / C16 / C05 / C06) or the subset a single property needs:
+    "uploads" (C03 / C13: the sync send loop under short writes), "early" (C01: early answer to a streamed upload, then a follow-up)."""
     out = []
     quick = tier == "quick"
     cts = ["h11", "h11tls", "h2alpn", "tunnel", "socks-auth-tls"] if quick else list(scen.CONN_TYPES)
-    for rt in RUNTIMES:
-        for ct in cts:
-            for method in ("GET", "POST"):
-                for warm in (False, True):
-                    if quick and warm and method == "POST":
-                        continue
-                    out.append((1, make_spec(MOD, "BackendHarness", runtime=rt, ct=ct, method=method, warm=warm)))
-        out.append((1, make_spec(MOD, "BackendHarness", runtime=rt, ct="h11", method="POST", uds=True)))
-    # the send loop of the sync backend under short writes (with one fault on top)
-    for ct in (["h11", "h11tls"] if quick else ["h11", "h11tls", "h2alpn", "tunnel", "tunnel-s", "socks"]):
-        out.append((2, make_spec(MOD, "BackendHarness", runtime="sync", ct=ct, method="POST", short_writes=True)))
+    if purpose == "all":
+        for rt in RUNTIMES:
+            for ct in cts:
+                for method in ("GET", "POST"):
+                    for warm in (False, True):
+                        if quick and warm and method == "POST":
+                            continue
+                        out.append((1, make_spec(MOD, "BackendHarness", runtime=rt, ct=ct, method=method, warm=warm)))
+                # a request that configures only some of the limits: the others mean unlimited, also on a reused socket
+                for tcfg in ("connect-only", "read-only"):
+                    out.append((1, make_spec(MOD, "BackendHarness", runtime=rt, ct=ct, method="POST", warm=True, timeouts=tcfg)))
+                # the caller closes the pool under its own streaming response and keeps iterating
+                if scen.CONN_TYPES[ct]["proto"] == "h1":
+                    out.append((1, make_spec(MOD, "BackendHarness", runtime=rt, ct=ct, method="GET", consume="close-mid-body")))
+            out.append((1, make_spec(MOD, "BackendHarness", runtime=rt, ct="h11", method="POST", uds=True)))
+    if purpose in ("all", "uploads"):
+        # the send loop of the sync backend under short writes (with one fault on top)
+        for ct in (["h11", "h11tls", "h2pk"] if quick else ["h11", "h11tls", "h2pk", "h2alpn", "tunnel", "tunnel-s", "socks"]):
+            out.append((2, make_spec(MOD, "BackendHarness", runtime="sync", ct=ct, method="POST", short_writes=True, payload=23)))
+    if purpose in ("all", "early"):
+        # a streamed upload answered early, one failure anywhere, then a follow-up request on the same pool
+        for rt in RUNTIMES:
+            for ct in (["h11"] if quick else ["h11", "h11tls", "fwd", "tunnel"]):
+                out.append((1, make_spec(MOD, "BackendHarness", runtime=rt, ct=ct, method="POST", body="iter", early=True, warm=True)))
     return out
 
 
-def run_for(tier, seed, workers, only=None):
+def run_for(tier, seed, workers, only=None, purpose="all"):
     from . import common
-    sp = specs(tier)
+    sp = specs(tier, purpose)
     total = engine.Stats(bound=1)
     n = 0
     for b in sorted({b for b, _ in sp}):
